@@ -129,3 +129,20 @@ Proof.
                  | exists CmdPrune; split; vm_compute; reflexivity ] |]).
   constructor.
 Qed.
+
+(* tree-pack reads without clean-up: pack 5 truncated, pack 6 good, pack 4 stale (not read) *)
+Example ex_indexed_pack_reads :
+  let ops := [OReadPartial Pack 5%N true 1 2; OReadPartial Pack 5%N true 0 1; OReadPartial Pack 6%N true 2 1; OReadPartial Pack 6%N false 0 9] in
+  BeHonest ex_content ex_be_packs /\ PackPrefix ex_content ex_cache_packs /\ Forall (indexed_pack_read ex_be_packs) ops /\
+  fst (run_c ops (mkst ex_cache_packs ex_be_packs)) = [RData (Some [7%N; 7%N]); RData (Some [5%N]); RData (Some [7%N]); RData None].
+Proof.
+  cbv zeta. split.
+  - intros k d H. unfold ex_be_packs, ex_be in H. simpl in H. repeat (destruct H as [H|H]; [inv H; reflexivity|]). contradiction.
+  - split.
+    + intros i d F. simpl in F.
+      repeat match type of F with (if ?b then _ else _) = _ => destruct b eqn:? end; try discriminate; inv F;
+      match goal with H : key_eqb _ _ = true |- _ => apply key_eqb_eq in H; inv H end;
+      [exists [] | exists [7%N; 7%N] | exists []]; reflexivity.
+    + split; [|vm_compute; reflexivity].
+      repeat constructor; simpl; try lia; discriminate.
+Qed.
